@@ -73,10 +73,11 @@ PKG_SCOPE = "model files of the package are hand-written transcriptions tied by 
 
 prop(
     "C03",
-    ["LolHtml.Thm.C03_Sim"],
+    ["LolHtml.Thm.C03_Sim", "LolHtml.Thm.C03_Ref"],
     [{"lane": "hash", "n_quick": 3000, "n_thorough": 40000},
-     {"lane": "lex", "n_quick": 3000, "n_thorough": 100000}],
-    "lane hash: names over the hash alphabet, table names with case variants, length-limit and sentinel neighbourhood, bad bytes; "
+     {"lane": "lex", "n_quick": 3000, "n_thorough": 100000},
+     {"lane": "h5", "n_quick": 3000, "n_thorough": 60000, "impl_only": True}],
+    "lane h5 (implementation only): tag soup in the HTML namespace without svg/math (all text-mode elements, select/template/frameset/table, truncated constructs, case variants) and documents from a recursive well-nested foreign-content grammar, real HtmlRewriter (strict, all-observer and single-kind capture sets, random chunkings) vs the html5ever 0.39 tokenizer driven by its own tree builder (RcDom); lane hash: names over the hash alphabet, table names with case variants, length-limit and sentinel neighbourhood, bad bytes; "
     + LEX_RULE,
     ["the real WHATWG tree builder is NOT modelled: the expected namespaces / text types are the author's reading of WHATWG 13.2.6, validated on witnesses against html5ever (lane nsprobe), not proved",
      "Ref tables (lean/LolHtml/Ref/Tags.lean) are hand-reviewed against the standard",
@@ -85,13 +86,13 @@ prop(
                 "(C03_tags_match_reference, kernel decide), every table hash is the hash of its name and hash equality is name "
                 "equality for letter-initial names (C03_hash_injective, induction), exact characterisation of unhashable names, "
                 "ambiguity-guard = recursive specification with the exact refusal condition (C03_guard_spec, C03_guard_err_iff), "
-                "simulator invariants for all tag sequences (stack never empty, cdata flag = foreign namespace, strict run = "
+                "the tokenizer table regenerated from the DSL resolves, for every state, closing-quote value, last/non-last chunk and all 257 input classes, to the same arm (calls, ? flags, condition, target, look-ahead sequences, enter actions) as a reference table transcribed from WHATWG 13.2.5 with nine documented shape deviations (C03_table_matches_reference, 24 kernel decide steps + a soundness lemma; insensitive to arm order / #[inline] / numbering); simulator invariants for all tag sequences (stack never empty, cdata flag = foreign namespace, strict run = "
                 "non-strict run when accepted), and the expected namespace at every tag of every derivation of a well-nested "
                 "foreign-content grammar (C03_foreign_grammar, C03_foreign_doc), with proved counter-examples for the grammar's "
                 "side conditions. PARTIAL: equality with a real tree builder on tag soup is not a theorem."),
     level_note=("Trusted: Lean kernel; translators; the reviewed Ref tables; the model of the simulator (tied by lanes lex/hash). "
-                "Not covered: the 23 insertion modes of the real tree builder; tokenizer-table conformance to WHATWG 13.2.5 "
-                "(reference table for the DSL still to be added)."),
+                "Not covered: the 23 insertion modes of the real tree builder (differential lane h5 against html5ever only); a "
+                "bisimulation 'equal resolution => equal runs' and formal lemmas for the nine shape deviations of the reference table."),
     technique="Lean 4 proof (kernel-evaluated table obligations + induction over tag sequences / grammar derivations) + correspondence lanes",
     design_ref="DESIGN.md section 4 C03",
 )
@@ -287,4 +288,68 @@ prop(
     level_note="Trusted: Lean kernel; model of rewritable_units/{mutations,element,tokens/*}.rs and the removed-content logic tied by lane edit; Spec.EditDoc as the reading of the API documentation.",
     technique="Lean 4 proof (algebraic laws of mutations + simulation to a document-edit specification) + correspondence lane + reference editor",
     design_ref="DESIGN.md section 4 C07",
+)
+
+
+prop(
+    "C15",
+    ["LolHtml.Thm.C15_Core"],
+    [{"lane": "lex", "n_quick": 4000, "n_thorough": 200000},
+     {"lane": "fault", "n_quick": 3000, "n_thorough": 60000}],
+    LEX_RULE + "; every lane of the harness runs in a build with overflow checks and debug assertions, each case under catch_unwind (a panic is an observation `PANIC …`, compared with the model which makes every panic site explicit)",
+    ["covers the parser / dispatcher / transform-stream core; panics in selectors/cssparser/encoding_rs/std and in the packages' own scopes (selector VM: C04_vm_never_panics; handlers: C05_no_panic; memory: C10_error_not_panic; nth: C04_nth_total) are those packages' theorems",
+     "two panic sites remain open (U2): 'Tag should be a start tag at this point' (pending aux-info request answered by an end tag) and the RequestLexeme callback assertion; both need scanner/lexer agreement across a mode switch (C06 hkey)",
+     "the controller itself never returns a panic/internal-class error (CtlClean)", MODEL_SCOPE],
+    level_text=("Lean 4 theorem C15_no_panic: for every tokenizer table satisfying decidable side-conditions (targets exist, "
+                "exhaustive arms, quiet enter actions, an abstract flag analysis of every arm's action list, a rank decreasing "
+                "along reconsume edges, a token-part certificate found by abstract interpretation) — all re-evaluated by "
+                "decide +kernel on the table regenerated from the Rust on every run —, every tag configuration, controller, "
+                "settings and write*;end history: every call returns ok / mem / handler / ambiguity (or the documented "
+                "use-after-error panic); 21 explicit panic / internal sites are unreachable (cursor underflows, raw and flush "
+                "ranges, every Bytes::slice site, unknown state, non-exhaustive match, Arena::shift, leave_ns, 'tag should "
+                "exist' assertions), both fuel budgets are never exhausted (C15_fuel) and one parsing-loop run makes at most "
+                "8(n+1) state invocations (C15_linear_run). PARTIAL: two sites open, whole-parse linear bound stated only."),
+    level_note="Trusted: Lean kernel; DSL translator; the core model (lanes lex / fault, debug build).",
+    technique="Lean 4 proof (register invariants through the DSL interpreter; static analyses of the table as kernel-checked side-conditions) + correspondence lanes in a debug build",
+    design_ref="DESIGN.md section 4 C15",
+)
+
+prop(
+    "C09",
+    ["LolHtml.Thm.C09_Bound"],
+    [{"lane": "lex", "n_quick": 4000, "n_thorough": 200000}],
+    LEX_RULE + "; oracles: emitted count after each write vs a fresh rewriter given the prefix in one write; with no handlers the held bytes must be '<' ['/'] name-prefix or <= 8 look-ahead bytes, and nothing when a full lexer holds nothing",
+    ["schedule independence (bytes out after write k is a function of the bytes written) is checked by the oracle only until package chunk (C02) lands",
+     "the scanner bound is for runs that stay in scanner mode (no handlers, HTML namespace or no RequestLexeme tag); foreign-content tags that need attributes are buffered whole (known finding F10, reproduced on the model as C09_F10_witness)",
+     MODEL_SCOPE],
+    level_text=("Lean 4 theorems: for any table satisfying the decidable side-condition UnmarkOnLeave (every arm leaving the "
+                "tag-head state set clears tag_start or extends '<' ['/'] name; mark_tag_start only on '<') — true on the "
+                "generated table by decide +kernel and FALSE with the two offending arms as witness on the pre-fix table "
+                "(finding F4) — a scanner run that ends a write holds back w ++ v with w empty or '<', '</', '<'['/'] + partial "
+                "tag name and v empty or a proper prefix (<= 6 bytes) of a look-ahead literal (C09_scanner_bound); nothing is "
+                "held when the state is a rest state (C09_rest_states); in lexer mode the held bytes are exactly the single "
+                "unfinished lexeme (C09_lexer_bound)."),
+    level_note="Trusted: Lean kernel; DSL translator; the core model (lane lex).",
+    technique="Lean 4 proof (scanner invariant over a decidable tag-head state set + kernel-checked table side-condition) + correspondence lane + latency oracles",
+    design_ref="DESIGN.md section 4 C09",
+)
+
+prop(
+    "C06",
+    ["LolHtml.Thm.C06_Scan"],
+    [{"lane": "lex", "n_quick": 4000, "n_thorough": 200000}],
+    LEX_RULE + "; oracle: every schedule S is also run as S u O for four observer sets O (TEXT, COMMENTS, DOCTYPES, every tag) and the events H would receive, the result and the sink bytes must be identical",
+    ["the top-level independence statement (dispatcher-level induction over mode switches: the re-lexed tag is the hinted one, got_flags_from_hint bookkeeping) is stated (C06_independence_statement) but not proved; the oracle covers it",
+     "known finding F27: strict-mode ParsingAmbiguity on an unterminated tag at end of input depends on the handler set",
+     MODEL_SCOPE],
+    level_text=("Lean 4 theorems over the two action sets running the same table: one state-function step from related "
+                "scanner / lexer machines leaves them related in the same new state or stops both (C06_scan_lex_simulation, "
+                "C06_run_simulation, C06_break_together); outside tags all steering registers and the simulator state are "
+                "equal and the scanner's hint log equals the lexer's tag-lexeme log, inside a tag the scanner is exactly one "
+                "simulator event ahead (C06_boundary_agreement, C06_inTag_one_ahead); both mode switches re-establish the "
+                "relation (C06_switch_*); adding capture flags never turns lex into scan. Side-condition PhaseOk on the "
+                "generated table. PARTIAL: C06_independence is a statement + oracle."),
+    level_note="Trusted: Lean kernel; DSL translator; the core model (lane lex).",
+    technique="Lean 4 proof (simulation relation between the two machines, preserved by every table arm) + correspondence lane + H vs H u O oracle",
+    design_ref="DESIGN.md section 4 C06",
 )
